@@ -64,6 +64,11 @@ T_Xfer ==
          run == RunStream(ContentOf(TU, e.rold.soa, c0), e.req, ms)
          known == e.req = 251 /\ e.from < Len(hist) /\ e.from >= 1
      IN /\ \A i \in 1..Len(ms) : e.msgs[i].parse_ok /\ e.msgs[i].arc = 0
+        \* sender: every message leaves the octets the request reserved (TSIG,
+        \* OPT appended by outer middleware) within the 65535-octet TCP limit;
+        \* a transfer larger than that budget is therefore split
+        /\ Len(e.sizes) = Len(ms)
+        /\ \A i \in 1..Len(ms) : e.sizes[i] + e.reserved <= 65535
         \* sender: the stream denotes the sender's zone / history
         /\ den.allValid /\ den.rd.complete /\ ~den.rd.bad
         /\ den.rd.versions[Len(den.rd.versions)] = LatestV
@@ -111,7 +116,29 @@ T_XferBad ==
               /\ e.rsteps[i].ir = run.steps[i].ir /\ e.rsteps[i].it = run.steps[i].it
   /\ UNCHANGED hist
 
-TNext == T_New \/ T_Commit \/ T_Hist \/ T_Xfer \/ T_XferBad
+\* IXFR over UDP: a single response message within (size hint - reserved
+\* octets) that is a header-valid transfer response and carries either the
+\* complete difference sequences from the client's version on or the lone
+\* current SOA (retry over TCP)
+T_XferUdp ==
+  /\ IsEv("xfer_udp")
+  /\ LET e == Rec[l]
+         ms == [i \in 1..Len(e.msgs) |-> [id |-> e.msgs[i].id, qr |-> e.msgs[i].qr, op |-> e.msgs[i].op,
+                                          rc |-> e.msgs[i].rc, tc |-> e.msgs[i].tc, qd |-> e.msgs[i].qd,
+                                          qdc |-> e.msgs[i].qdc, an |-> e.msgs[i].an,
+                                          anc |-> e.msgs[i].anc, nsc |-> e.msgs[i].nsc]]
+         c0 == SeqSet(e.rold.recs)
+         den == Denotes(ms, 251, e.rold.soa, c0)
+     IN /\ Len(ms) = 1 /\ Len(e.sizes) = 1
+        /\ e.sizes[1] + e.reserved <= e.hint
+        /\ e.msgs[1].parse_ok
+        /\ CheckResponse(IpNone, ms[1]) /\ IsAnswer(251, ms[1])
+        /\ \/ ms[1].an = <<LatestV.soa[1]>>
+           \/ /\ den.allValid /\ den.rd.complete /\ ~den.rd.bad
+              /\ den.rd.versions = [i \in 1..(Len(hist) - e.from) |-> VersionAt(e.from + i)]
+  /\ UNCHANGED hist
+
+TNext == T_New \/ T_Commit \/ T_Hist \/ T_Xfer \/ T_XferBad \/ T_XferUdp
 TSpec == TInit /\ [][TNext]_tvars
 
 Accepted ==
